@@ -20,11 +20,14 @@ import (
 	"fmt"
 	"io"
 	"io/ioutil"
+	"log"
 	"net/http"
 	"net/url"
+	"os"
 	"regexp"
 	"strconv"
 	"strings"
+	"sync"
 	"time"
 
 	"github.com/ipfs/ipfs-cluster/api"
@@ -407,6 +410,31 @@ type harness struct {
 	hc         *http.Client
 }
 
+// panicLog counts "http: panic serving" lines written by net/http's default error log: a handler
+// that panics makes the server drop the connection, which the client sees as a transport error.
+type panicLog struct {
+	mu sync.Mutex
+	n  int
+}
+
+func (p *panicLog) Write(b []byte) (int, error) {
+	if bytes.Contains(b, []byte("http: panic serving")) {
+		p.mu.Lock()
+		p.n++
+		p.mu.Unlock()
+	}
+	return os.Stderr.Write(b)
+}
+func (p *panicLog) count() int {
+	p.mu.Lock()
+	defer p.mu.Unlock()
+	return p.n
+}
+
+var panics = &panicLog{}
+
+func init() { log.SetOutput(panics) }
+
 func newHarness() *harness {
 	return &harness{
 		open: newServer(false),
@@ -470,8 +498,13 @@ func (h *harness) exec(c reqCase) (string, error) {
 		}
 		w := &expWindow{from: time.Now(), durs: expireInDurs}
 		s.rec.reset(c.rpc, w)
+		before := panics.count()
 		resp, err := h.hc.Do(req)
 		if err != nil {
+			time.Sleep(20 * time.Millisecond)
+			if panics.count() > before {
+				return fmt.Sprintf("st=0 body=d0 ops=%s", opsTok(s.rec.take())), nil // the handler panicked: no response
+			}
 			lastErr = err
 			time.Sleep(50 * time.Millisecond)
 			continue
@@ -479,6 +512,10 @@ func (h *harness) exec(c reqCase) (string, error) {
 		b, err := ioutil.ReadAll(resp.Body)
 		resp.Body.Close()
 		if err != nil {
+			time.Sleep(20 * time.Millisecond)
+			if panics.count() > before {
+				return fmt.Sprintf("st=0 body=d0 ops=%s", opsTok(s.rec.take())), nil
+			}
 			lastErr = err
 			continue
 		}
